@@ -330,6 +330,15 @@ def others(tier='quick', seed=0):
             bad = bad or {'inputs': {'value': repr(x)}, 'python': f"import bitstring\ntry:\n    bitstring.Bits(e8m0mxfp={x!r})\n    FAILS = True\nexcept ValueError:\n    FAILS = False"}
         except ValueError:
             pass
+    # a float next to a power of two is not a power of two: 'no rounding will be done'
+    for k in range(-127, 128):
+        for x in (math.nextafter(2.0 ** k, math.inf), math.nextafter(2.0 ** k, -math.inf), 2.0 ** k * 1.5, -(2.0 ** k)):
+            evals += 1
+            try:
+                Bits(e8m0mxfp=x)
+                bad = bad or {'inputs': {'value': repr(x)}, 'python': f"import bitstring\ntry:\n    bitstring.Bits(e8m0mxfp={x!r})\n    FAILS = True\nexcept ValueError:\n    FAILS = False"}
+            except ValueError:
+                pass
     if Bits(e8m0mxfp=float('nan')).uint != 255:
         bad = bad or {'inputs': {'value': 'nan'}, 'python': "FAILS = True"}
     obs.append(_ob('C11/bitstore_helpers.e8m0mxfp2bitstore/exact-powers-of-two-only/all-codes', bad is None, bad))
